@@ -234,6 +234,9 @@ def oracle(ctx):
                         ctx.fail("oracle", "interp:grad-y:%s:%s" % (method, bc), info, gy, mat.sum(dim=0))
                 hq = span * 1e-6
                 fd = (f(qin + hq) - f(qin - hq)) / (2 * hq)
+                # the linear interpolant has kinks: compare only queries whose stencil stays inside one interval
+                away = (qin[:, None] - x[None, :]).abs().min(dim=1)[0] > 3 * hq
+                gq, fd = gq[away], fd[away]
                 if not torch.allclose(gq, fd, rtol=1e-4, atol=1e-5 * (float(yy.abs().max()) + 1) / min(xs[j + 1] - xs[j] for j in range(n - 1))):
                     ctx.fail("oracle", "interp:grad-xq:%s:%s" % (method, bc), info, gq, fd)
 
